@@ -939,3 +939,39 @@ Section CacheSeq.
     tx_rlp_wf t -> enter (EntRLP (encode_tx t)) = Some t.
   Proof. apply decode_encode_tx. Qed.
 End CacheSeq.
+
+(* ---------- 15. chain ids of any size: nothing is narrowed ---------- *)
+Section WideChains.
+  Variable H : bytes -> bytes.
+  Variable ecrecover : bytes -> bytes -> option bytes.
+
+  (* chain ids are unbounded naturals in the model; two different ones - however large, however
+     congruent modulo 2^32 or 2^64 - never share a signing hash, short of an H collision *)
+  Theorem sighash_differs_across_chains c1 c2 t :
+    c1 <> c2 -> to_wf t ->
+    fits (sighash_item (EIP155 c1) t) = true -> fits (sighash_item (EIP155 c2) t) = true ->
+    sighash H (EIP155 c1) t = sighash H (EIP155 c2) t ->
+    collision H (encode (sighash_item (EIP155 c1) t)) (encode (sighash_item (EIP155 c2) t)).
+  Proof.
+    intros Ne W F1 F2 E. destruct (sighash_injective H _ _ _ _ W W F1 F2 E) as [[_ D]|C]; [|exact C].
+    cbn in D. injection D as D. contradiction.
+  Qed.
+
+  (* cross-chain replay, V rewritten or not: if t2 carries the signed fields of t1 (signed for chain c1)
+     and is attributed to a under the EIP-155 signer of another chain c2, then a signature recovering to
+     a exists on a hash other than the one signed for c1 - or H collides.  No bound on c1, c2. *)
+  Theorem cross_chain_replay c1 c2 t1 t2 a :
+    c1 <> c2 -> to_wf t1 -> to_wf t2 ->
+    fits (sighash_item (EIP155 c1) t1) = true -> fits (sighash_item (EIP155 c2) t2) = true ->
+    is_protected_v (t_v t2) = true ->
+    sender_signer H ecrecover (EIP155 c2) t2 = Ok a ->
+    (exists h r s v, h <> sighash H (EIP155 c1) t1 /\ recover_addr H ecrecover h r s v = Ok a) \/
+    collision H (encode (sighash_item (EIP155 c1) t1)) (encode (sighash_item (EIP155 c2) t2)).
+  Proof.
+    intros Ne W1 W2 F1 F2 P S.
+    assert (Eff : eff_signer (EIP155 c2) t2 = EIP155 c2) by (cbn; now rewrite P).
+    pose proof (mutation_changes_sender H ecrecover (EIP155 c1) t1 (EIP155 c2) t2 a W1 W2 F1) as M.
+    rewrite Eff in M. apply M; try assumption.
+    intros [_ D]. cbn in D. injection D as D. contradiction.
+  Qed.
+End WideChains.
